@@ -1607,6 +1607,9 @@ func elimCheck(w *World, r *Report, fn *ssa.Function) int {
 					good = true
 				}
 			}
+			if !good {
+				good = pivotFromSearch(w, fn, m, o.call, o.args[0], o.args[1])
+			}
 			if good {
 				r.ok("ELIM", k2, w.ipos(o.call), "swapRows(i, j) guarded by m.At(j, i) != 0")
 			} else {
@@ -2022,4 +2025,67 @@ func ruleNAMESYM(w *World, r *Report, pkgs ...string) {
 		}
 	}
 	r.floor("NAMESYM", "name readers", n, 1)
+}
+
+// pivotFromSearch: the row swapped in is the result of a private search method on m for column
+// col: each of its returns is either a negative constant (nothing found) or a row v returned
+// under m.At(v, col) != 0, and the swap is made only where the result is known non-negative.
+func pivotFromSearch(w *World, fn *ssa.Function, m ssa.Value, swap *ssa.Call, col, row ssa.Value) bool {
+	c, ok := stripConv(row).(*ssa.Call)
+	if !ok {
+		return false
+	}
+	g := c.Call.StaticCallee()
+	if g == nil || g.Signature.Recv() == nil || len(g.Params) != 2 || len(c.Call.Args) != 2 || len(g.Blocks) == 0 {
+		return false
+	}
+	if g.Object() == nil || g.Object().Exported() || matrixRoot(c.Call.Args[0]) != m || c.Call.Args[1] != col {
+		return false
+	}
+	gm, gcol := ssa.Value(g.Params[0]), ssa.Value(g.Params[1])
+	nret := 0
+	for _, b := range g.Blocks {
+		ret, ok := b.Instrs[len(b.Instrs)-1].(*ssa.Return)
+		if !ok || len(ret.Results) != 1 {
+			continue
+		}
+		nret++
+		v := ret.Results[0]
+		if k, isC := constInt(v); isC {
+			if k >= 0 {
+				return false
+			}
+			continue
+		}
+		found := false
+		for _, cm := range cmpsAt(b) {
+			if cm.Op != token.NEQ || cm.Y == nil {
+				continue
+			}
+			if z, isC := constInt(cm.Y); !isC || z != 0 {
+				continue
+			}
+			at, isCall := stripConv(cm.X).(*ssa.Call)
+			if !isCall {
+				continue
+			}
+			f := at.Call.StaticCallee()
+			if f == nil || f.Name() != "At" || len(at.Call.Args) != 3 {
+				continue
+			}
+			if matrixRoot(at.Call.Args[0]) == gm && at.Call.Args[1] == v && at.Call.Args[2] == gcol {
+				found = true
+			}
+		}
+		if !found {
+			return false
+		}
+	}
+	if nret == 0 {
+		return false
+	}
+	rangeWorld = w
+	rc := &rangeCtx{memo: map[ssa.Value]*ival{}, busy: map[ssa.Value]bool{}}
+	iv := rc.eval(c, swap.Block())
+	return iv != nil && iv.lo.Sign() >= 0
 }
